@@ -16,6 +16,7 @@
  * pointed at scripted probes.
  */
 #include "common.h"
+#include <unistd.h>
 #include "src/kdumpfile/open.c"
 #include <fcntl.h>
 
@@ -81,6 +82,7 @@ int main(int argc, char **argv)
 	setvbuf(stdout, NULL, _IOLBF, 0);
 	if (NFMT > 16) { fprintf(stderr, "too many formats\n"); return 2; }
 	while ((line = verif_getline(f))) {
+		alarm(10);	/* a case takes milliseconds; a spinning library is killed by SIGALRM */
 		kdump_ctx_t *ctx;
 		fail_at = -1;
 		ctx = kdump_new();
